@@ -7,6 +7,12 @@ Proof part : coq/Props/Properties_C09.v (model: coq/ParseTotal/*) -- termination
              as regression inputs (they must no longer reproduce).
 Tie        : harness/c09_parse.c (ASan+UBSan, fork + 5 s alarm per case) against bin/ptotal (extracted
              model): token sequences, option (flag,value,message), skip position, constructed message.
+Whole files: coq/ParseTotal/WholeFile.v (line buffer, option loop, dispatch, monomial / legacy 2.x / secular /
+             Chebyshev token loops, GMP acceptance as a parameter); extracted with the GMP 6.2.1 transcription
+             (bin/pwhole) and compared with mps_parse_string / mps_parse_stream / mps_parse_file: POLY line
+             (type, degree, structure, density, precision) or error text incl. line number must be equal,
+             predicted SIGFPE / wild index must show up under the sanitizers; mode "gmp" ties the transcription
+             of mpf_set_str / mpq_set_str / atoi / sscanf %d %ld / long*LOG2_10 token by token.
 Predicate  : decided on the implementation's own output: crash / sanitizer report / timeout / NULL
              without flag / polynomial with flag / message that lost the token text = violation.
 """
@@ -46,16 +52,38 @@ def cstr(b):
     return b if i < 0 else b[:i]
 
 
+def c_int(txt):
+    """(int) strtol (txt): saturate to long, truncate to int (what atoi / sscanf %d of glibc do)"""
+    v = int(txt) if len(txt) < 40 else (10 ** 40 if not txt.startswith(b"-") else -10 ** 40)
+    v = max(-2 ** 63, min(2 ** 63 - 1, v))
+    return (v + 2 ** 31) % 2 ** 32 - 2 ** 31
+
+
 def declared_degree(b):
     b = re.sub(rb"![^\n]*", b"", b)          # comments are dropped by the line reader
-    m = re.search(rb"(?i)degree\s*=\s*(-?\d+)", b)
-    if m:
-        try: return int(m.group(1)) if len(m.group(1)) < 40 else 10 ** 40
-        except ValueError: return None
+    m = re.search(rb"(?i)degree\s*=\s*([-+]?\d+)", b)
+    if m: return c_int(m.group(1))
     t = b.split()
-    if len(t) >= 3 and re.fullmatch(rb"-?\d+", t[2]):
-        return int(t[2]) if len(t[2]) < 40 else 10 ** 40
+    if len(t) >= 3 and re.match(rb"[-+]?\d+", t[2]):
+        return c_int(re.match(rb"[-+]?\d+", t[2]).group(0))
     return None
+
+
+def declared_precision(b):
+    """decimal digits of input precision a file asks for (3.x option or second token of a 2.x file)"""
+    b = re.sub(rb"![^\n]*", b"", b)
+    m = re.search(rb"(?i)precision\s*=\s*([-+]?\d+)", b)
+    if m: return c_int(m.group(1))
+    t = b.split()
+    if len(t) >= 2 and re.fullmatch(rb"[dsu][rc][qif]", t[0][:3]) and re.match(rb"[-+]?\d+", t[1]):
+        g = re.match(rb"[-+]?\d+", t[1]).group(0)
+        return int(g) if len(g) < 40 else 10 ** 40
+    return None
+
+
+def is_huge(b):
+    d, p = declared_degree(b), declared_precision(b)
+    return (d is not None and d >= 10 ** 7) or (p is not None and p >= 10 ** 7)
 
 
 # ----------------------------------------------------------------------------- generators
@@ -173,6 +201,133 @@ def v3_case(rng):
     return b";\n".join(opts) + b";\n" + b" ".join(nums) + rng.choice([b"\n", b"", b" !c", b"\n!c\n"])
 
 
+INT_EDGE = [b"0", b"1", b"-1", b"2", b"3", b"7", b"2147483647", b"2147483648", b"-2147483648", b"-2147483649", b"4294967296",
+            b"4294967297", b"4294967299", b"9223372036854775807", b"9223372036854775808", b"-9223372036854775808",
+            b"-9223372036854775809", b"99999999999999999999", b"+3", b"+", b"-", b"3x", b"x3", b"03", b"3.5", b"1e1", b" 4", b"--1", b""]
+GMP_EDGE = [b"0", b"-0", b"00", b"0.0", b".0", b"0.", b".", b"-.", b"-.5", b".5", b"5.", b"1.2.3", b"1e5", b"1E5", b"1@5", b"1e+5", b"1e-5",
+            b"1e", b"1e+", b"1e-", b"e5", b"1ee5", b"1e5e3", b"0ex", b"0e", b"00.00e+", b"1ex", b"1e5x", b"1e5.5", b"1.e5", b".e5", b"-e5", b"+1",
+            b"1+", b"--1", b"-1", b"1-", b"1/2", b"1/0", b"0/0", b"0/5", b"-1/2", b"1/-2", b"-1/-2", b"1/2/3", b"/2", b"1/", b"/", b"1/+2",
+            b"1/ 2", b"01/02", b"1/00", b"1x", b"0x10", b"1,5", b"inf", b"nan", b"1e9999", b"1e99999999999999999999", b"12345678901234567890123",
+            b"-12345678901234567890123/7", b"7/-0", b"\xff", b"1\xff", b"1e5\xff", b"%s", b"1%n", b"1@", b"@1", b"1@-3", b"1.5@2", b"-"]
+
+
+def num_token(rng, kind):
+    """a coefficient token: mostly fine for the given kind (f/q/i), sometimes an edge literal"""
+    r = rng.random()
+    if r < 0.10: return rng.choice(GMP_EDGE)
+    if kind == "f": return rng.choice([b"1.5", b"-2e3", b"0", b"3", b"1e-5", b".5", b"-7", b"2@3", b"1E2"])
+    if kind == "q":
+        d = rng.choice([1, 2, 3, 7, 5, 5, 11, 0 if r < 0.16 else 4, -3 if r < 0.2 else 9])
+        return ("%d/%d" % (rng.randrange(-9, 9), d)).encode() if rng.random() < 0.8 else str(rng.randrange(-9, 9)).encode()
+    return str(rng.randrange(-99, 99)).encode()
+
+
+def split_v3_case(rng):
+    """3.x file aimed at the case splits of the whole-file model: option values around the int / long limits, option
+    layouts, representation x structure x density, sparse indices (duplicates, out of range, wrapping), zero and
+    negative denominators, end of input at every position of a coefficient"""
+    rep = rng.choice([b"Monomial", b"Secular", b"Chebyshev", None])
+    st = rng.choice([b"Integer", b"Rational", b"FloatingPoint", None])
+    rc = rng.choice([b"Real", b"Complex", None])
+    dn = rng.choice([b"Dense", b"Sparse", b"Sparse", None])
+    d = rng.randrange(1, 6)
+    deg = str(d).encode()
+    r = rng.random()
+    if r < 0.12: deg = rng.choice(INT_EDGE)
+    opts = [o for o in (rep, st, rc, dn) if o] + ([b"Degree=" + deg] if r > 0.03 else [])
+    if rng.random() < 0.25: opts.append(b"Precision=" + rng.choice([b"53", b"0", b"-1", b"1000", b"1", b"3", b"301", b"x", b"", b"4294967297", b"99999", b" 12", b"+7"]))
+    if rng.random() < 0.1: opts.append(rng.choice([b"Dense", b"Real", b"Complex", b"Integer", b"Monomial", b"Degree=2", b"Sparse"]))
+    rng.shuffle(opts)
+    def layout(o):
+        k = rng.random()
+        if k < 0.70: return o + b";\n"
+        if k < 0.78: return b"  " + o + b" \t;\n"
+        if k < 0.84: return o.replace(b"=", b" = ") + b";   ignored text\n"
+        if k < 0.88: return o + b"; " + rng.choice([b"Degree=9;", b"Sparse;", b"Real;"]) + b"\n"
+        if k < 0.92: return o.swapcase() + b";\n"
+        if k < 0.95: return o + b"; ! comment\n"
+        if k < 0.97: return b"! comment only\n" + o + b";\n"
+        return o + b" ;\n\n"
+    head = b"".join(layout(o) for o in opts)
+    kind = "f" if st in (None, b"FloatingPoint") else ("q" if st == b"Rational" else rng.choice("iq"))
+    per = 1 if rc == b"Real" else 2
+    toks = []
+    if rep == b"Secular":
+        for i in range(2 * d * per): toks.append(num_token(rng, kind))
+    elif dn == b"Sparse":
+        idx = list(range(d + 1)); rng.shuffle(idx); idx = idx[:rng.randrange(0, d + 2)]
+        for i in idx:
+            it = str(i).encode(); q = rng.random()
+            if q < 0.06: it = rng.choice(INT_EDGE)
+            elif q < 0.10: it = str(rng.choice([d + 1, -1, d + 4294967296, 100, d + 7])).encode()
+            elif q < 0.13 and toks: it = str(idx[0]).encode()
+            toks.append(it)
+            for _ in range(per): toks.append(num_token(rng, kind))
+    else:
+        for i in range((d + 1) * per): toks.append(num_token(rng, kind))
+    q = rng.random()
+    if q < 0.15 and toks: toks = toks[:rng.randrange(len(toks))]
+    elif q < 0.20: toks += [num_token(rng, kind), b"junk"]
+    sep = rng.choice([b" ", b" ", b"\n", b"  \t", b"\n\n", b" ! c\n"])
+    return head + sep.join(toks) + rng.choice([b"\n", b"", b" ", b" !c", b"\n!c\n"])
+
+
+def split_legacy_case(rng):
+    ty = rng.choice([b"dri", b"dci", b"drq", b"dcq", b"drf", b"dcf", b"sri", b"sci", b"srq", b"scq", b"srf", b"scf", b"drq", b"dcq", b"srq"])
+    if rng.random() < 0.12: ty = rng.choice(LEGACY_TYPES + [b"uri", b"ucq", b"urf", b"u", b"ur", b"drqq", b"DRI"])
+    prec = rng.choice([b"0", b"0", b"53", b"-5", b"15", b"100"]) if rng.random() < 0.85 else rng.choice(INT_EDGE)
+    d = rng.randrange(0, 5)
+    deg = str(d).encode() if rng.random() < 0.88 else rng.choice(INT_EDGE)
+    rational = ty[2:3] == b"q"; cplx = ty[1:2] == b"c"; sparse = ty[:1] == b"s"
+    kind = "f" if ty[2:3] == b"f" else "i"
+    toks = []
+    def coeff():
+        for _ in range(2 if cplx else 1):
+            if rational:
+                r = rng.random()
+                toks.append(rng.choice([b"1", b"3", b"-2", b"7", b"0", b"12"]) if r > 0.12 else rng.choice([b"1/0", b"0/0", b"1/-2", b"0/-5", b"2/4", b"x", b"1/2"]))
+                r = rng.random()
+                toks.append(rng.choice([b"1", b"3", b"2", b"7", b"5"]) if r > 0.15 else rng.choice([b"0", b"-2", b"3/0", b"0/0", b"1/-2", b"6/4", b"0/7", b"x", b"1e1"]))
+            else:
+                toks.append(num_token(rng, kind))
+    if sparse:
+        toks.append(str(d + 1).encode() if rng.random() < 0.9 else rng.choice([b"x", b"0", b"-1"]))
+        idx = list(range(d + 1)); rng.shuffle(idx); idx = idx[:rng.randrange(0, d + 2)]
+        for i in idx:
+            it = str(i).encode(); q = rng.random()
+            if q < 0.06: it = rng.choice(INT_EDGE)
+            elif q < 0.10: it = str(rng.choice([d + 1, -1, d + 4294967296, i + 4294967296])).encode()
+            elif q < 0.13: it = str(idx[0]).encode()
+            toks.append(it); coeff()
+    else:
+        for i in range(d + 1): coeff()
+    q = rng.random()
+    if q < 0.15 and toks: toks = toks[:rng.randrange(len(toks))]
+    sep = rng.choice([b"\n", b" ", b" ", b"\n\n", b" \t", b" !c\n"])
+    head = rng.choice([b"", b"", b"! legacy\n", b"\n", b"  "])
+    return head + ty + rng.choice([b"\n", b" "]) + prec + rng.choice([b"\n", b" "]) + deg + b"\n" + sep.join(toks) + rng.choice([b"\n", b"", b" "])
+
+
+def gmp_token(rng):
+    r = rng.random()
+    if r < 0.35: return rng.choice(GMP_EDGE + INT_EDGE + EDGE_LITERALS)
+    n = rng.randrange(1, 9)
+    return bytes(rng.choice(b"0123456789012345.-+eE@/x ") for _ in range(n)).replace(b" ", b"0") or b"0"
+
+
+# witnesses of the refuted whole-file theorems (Properties_C09.v) and of the known-finding classes
+WHOLE_WITNESSES = [
+    ("string", b"Monomial;\nDegree=1;\nRational;\nReal;\n1/0 1\n", "witness:zero-denominator-monomial"),
+    ("file", b"Secular;\nDegree=1;\nRational;\nReal;\n1/0 1\n", "witness:zero-denominator-secular"),
+    ("stream", b"Chebyshev;\nDegree=1;\nRational;\nReal;\n1/0 1\n", "witness:zero-denominator-chebyshev"),
+    ("string", b"drq\n0\n0\n1 0\n", "witness:zero-denominator-legacy"),
+    ("string", b"Chebyshev;\nDegree=2;\nSparse;\nReal;\n5 1.0\n", "witness:chebyshev-sparse-index"),
+    ("file", b"Chebyshev;\nDegree=2;\nSparse;\nInteger;\nReal;\n-1 1\n", "witness:chebyshev-sparse-index"),
+    ("string", b"Monomial;\n1 2\n", "witness:degree-missing-format"),
+    ("string", b"Chebyshev;\nDegree=2;\nSparse;\nComplex;\n1 1.0", "witness:chebyshev-message-format"),
+]
+
+
 # zero denominators written with one or several digits (must give NULL + flag, not SIGFPE), forms around the
 # RATIONAL token of tokenizer.l, denominators with leading zeros (legal), zero numerators
 INLINE_EDGE = ["1/0", "1/00", "3/000", "0/00", "0/0", "5/00i", "7/0i", "1/0e0", "1/00e2", "2/0.5", "3/04", "10/010",
@@ -256,14 +411,13 @@ def gen_cases(ctx, pol_files):
     rng = ctx.rng
     scale = ctx.pick(1, 33)
     cases = []      # (mode, bytes, origin)
-    budget = {"hang": ctx.pick(6, 40), "dropped_hang": 0, "huge": ctx.pick(2, 6)}
+    budget = {"hang": ctx.pick(6, 40), "dropped_hang": 0, "huge": ctx.pick(4, 12)}
     def add(mode, b, origin):
         if len(b) > 65536: return
         if mode in ("stream", "file", "skipc") and would_hang(b) and not origin.startswith("witness"):
             if budget["hang"] <= 0: budget["dropped_hang"] += 1; return
             budget["hang"] -= 1
-        d = declared_degree(b)
-        if mode != "inline" and d is not None and d >= 10 ** 7:
+        if mode not in ("inline", "gmp") and is_huge(b) and not origin.startswith("witness"):
             if budget["huge"] <= 0: return
             budget["huge"] -= 1
         cases.append((mode, b, origin))
@@ -285,8 +439,23 @@ def gen_cases(ctx, pol_files):
         mb = mutate(rng, b)
         if rng.random() < 0.25: mb = mutate(rng, mb)
         add(rng.choice(["string", "stream", "file"]), mb, "mut:" + name)
-    for _ in range(700 * scale): add(rng.choice(["string", "stream", "file"]), legacy_case(rng), "legacy")
-    for _ in range(700 * scale): add(rng.choice(["string", "stream", "file"]), v3_case(rng), "v3gen")
+    for _ in range(350 * scale): add(rng.choice(["string", "stream", "file"]), legacy_case(rng), "legacy")
+    for _ in range(350 * scale): add(rng.choice(["string", "stream", "file"]), v3_case(rng), "v3gen")
+    for _ in range(800 * scale): add(rng.choice(["string", "stream", "file"]), split_v3_case(rng), "v3split")
+    for _ in range(600 * scale): add(rng.choice(["string", "stream", "file"]), split_legacy_case(rng), "legacysplit")
+    # truncations of shipped files at EVERY token boundary (a few small files per run)
+    tiny = [(n, b) for n, b in pols if len(b) <= 700] or small
+    for name, b in rng.sample(tiny, min(len(tiny), 6 * scale)):
+        toks = tokens_of(b)
+        for k in range(len(toks) + 1):
+            add(rng.choice(["string", "stream", "file"]), b"".join(toks[:k]), "trunc:" + name)
+    for m, b, o in WHOLE_WITNESSES: add(m, b, o)
+    def tokenlike(t): return len(t) > 0 and not any(c in t for c in b" \t\n\r\x0b\x0c\x00")
+    for _ in range(500 * scale):
+        t = gmp_token(rng)
+        if tokenlike(t): add("gmp", t, "gmp")
+    for t in GMP_EDGE + INT_EDGE:
+        if tokenlike(t): add("gmp", t, "gmp-edge")
     # expected-defect shapes, each entry point (few: the hanging ones cost 5 s each)
     for m in ("stream", "file"):
         add(m, b"!x", "witness:bang-at-eof")
@@ -295,6 +464,7 @@ def gen_cases(ctx, pol_files):
         add(m, b";\n1 2\n", "witness:semicolon")
         add(m, b"Monomial;\nDegree=1;\n1 2 3 " + b"2" * 113, "witness:cap-1")
     add("string", b"Monomial;\nDegree=2000000000;\n1 2\n", "witness:huge-degree")
+    add("string", b"dcf\n4294967296\n1\n1.5 1.5", "witness:huge-precision")
     # (iii) random bytes
     for _ in range(450 * scale): add(rng.choice(["string", "stream", "file", "inline"]), random_bytes(rng), "random")
     # (iv) inline expressions
@@ -375,12 +545,82 @@ def model_lines(ctx, cases):
     return {i: out[k] for k, i in enumerate(idx) if k < len(out)}
 
 
+WHOLE = {}     # case index -> answer of the whole-file model (bin/pwhole)
+TYPE_CODE = {"mps_monomial_poly": "0", "mps_secular_equation": "1", "mps_chebyshev_poly": "2", "?": "3"}
+MAX_MODEL_LINE = 1500      # the extracted line memory is a list: time grows with the square of the line length
+
+
+def cheb_index_checked(snap):
+    """translator step: is the index check of fixes/C09_chebyshev_sparse_index_check.patch in the source?"""
+    try: src = open(os.path.join(snap, "src/libmps/chebyshev/chebyshev-parser.c"), errors="replace").read()
+    except OSError: return False
+    return re.search(r"degree\s*<\s*0\s*\|\|\s*degree\s*>\s*ctx->n", src) is not None
+
+
+def whole_model(ctx, cases, chk, stats):
+    q, idx = [], []
+    for i, (mode, b, origin) in enumerate(cases):
+        if mode == "gmp":
+            q.append("GMP " + hexs(cstr(b)))
+        elif mode in ("string", "stream", "file"):
+            src = cstr(b) if mode == "string" else b
+            if len(src) > 20000 or max((len(l) for l in src.split(b"\n")), default=0) > MAX_MODEL_LINE:
+                stats["whole_skipped"] += 1; continue
+            q.append("PARSE %s %d %s" % ("S" if mode == "string" else "F", 1 if chk else 0, hexs(b)))
+        else: continue
+        idx.append(i)
+    out = ctx.run_model_lines("pwhole", q, workers=int(os.environ.get("VERIF_JOBS", "16")))
+    WHOLE.clear(); WHOLE.update({i: out[k] for k, i in enumerate(idx)})
+
+
+def compare_whole(case, res, ans, stats):
+    """model of the whole parser against the implementation; returns (ok, predicted_crash_code or None)"""
+    mode, b, origin = case
+    status, payload = res
+    kind = ans.split(" ", 1)[0]
+    stats["whole_outcome"][kind] = stats["whole_outcome"].get(kind, 0) + 1
+    if " ok=0" in ans or kind == "FUEL":
+        return False, None           # the model itself left the line buffer / ran out of its budget: theorem contradicted
+    body = ans[:ans.rfind(" ok=")] if " ok=" in ans else ans
+    if kind == "POLY":
+        g = re.match(r"POLY (\S+) deg=(-?\d+) structure=(\d+) density=(\d+) prec=(-?\d+)", payload)
+        if status != "OK" or not g: return False, None
+        return body == "POLY type=%s deg=%s structure=%s density=%s prec=%s" % (
+            TYPE_CODE.get(g.group(1), g.group(1)), g.group(2), g.group(3), g.group(4), g.group(5)), None
+    if kind == "ERR":
+        return status == "OK" and payload == body, None
+    if kind == "ERRI":                                   # a %d of the format has no argument: any integer is printed
+        pat = re.escape("ERR " + body[5:]).replace("%d", r"(-?\d+|%d|<n>)")   # also the texts after fixes/C09_error_format_without_argument.patch
+        ok = status == "OK" and re.fullmatch(pat, payload) is not None
+        if ok: stats["witness"]["indeterminate-format-argument"] = stats["witness"].get("indeterminate-format-argument", 0) + 1
+        return ok, None
+    if kind == "CRASH":
+        code = body.split(" ")[1]
+        died = status.startswith("SAN ") or status.startswith("SIG ")
+        if code == "2":
+            ok = status.startswith("SAN FPE") or status.startswith("SIG 8")
+            stats["witness"]["zero-denominator-sigfpe"] = stats["witness"].get("zero-denominator-sigfpe", 0) + int(ok)
+            return ok, code
+        if code == "3":
+            stats["witness"]["gmp-contract"] = stats["witness"].get("gmp-contract", 0) + int(died)
+            return True, code        # outside GMP's contract: anything may happen, not compared
+        if code == "4":
+            stats["witness"]["wild-index"] = stats["witness"].get("wild-index", 0) + int(died)
+            stats["wild_index_silent"] += int(not died)
+            return True, code        # a wild access need not be detected: counted, not compared
+        return False, code
+    return False, None
+
+
 def classify_timeout(mode, b, model_ans):
     if mode in ("stream", "file", "skipc") and (model_ans == "SKIP HANG" or would_hang(b)):
         return "hang:skip_comments:bang-comment-at-EOF"
     d = declared_degree(b)
     if d is not None and d >= 10 ** 7 and mode != "inline":
         return "timeout:allocation:declared-degree-above-1e7"
+    pdig = declared_precision(b)
+    if pdig is not None and pdig >= 10 ** 7 and mode != "inline":
+        return "timeout:allocation:declared-precision-above-1e7"
     if mode == "inline" and re.search(rb"[eE^][-+]?\d{7,}", b):
         return "timeout:inline:exponent-above-1e6"
     return "timeout:%s:unclassified" % mode
@@ -425,6 +665,23 @@ def evaluate(ctx, case, res, model_ans, stats):
                     if lit not in src:
                         cl = "raise_parsing_error:percent-in-token" if (m and b"%" in src) else "mps_error:va_list-reuse-long-message"
                         v.append(("format:" + cl, "message does not carry the input text literally: " + payload[:100]))
+    # whole-file model and GMP transcription
+    wans = WHOLE.get(stats["cur"])
+    if wans is not None and mode in ("string", "stream", "file"):
+        stats["corr"]["whole:" + mode] = stats["corr"].get("whole:" + mode, 0) + 1
+        o = origin.split(":")[0]
+        stats["whole_by_origin"][o] = stats["whole_by_origin"].get(o, 0) + 1
+        ok, crash = compare_whole(case, res, wans, stats)
+        if crash == "4" and v:       # the sanitizer report is the violation; the model names its cause
+            v = [("oob:chebyshev-sparse-reader:index-not-checked", what) if sg.startswith(("asan:", "sig:")) else (sg, what)
+                 for sg, what in v]
+        if not ok:
+            stats["corr_mismatch"].append({"mode": mode, "hex": b.hex(), "impl": "%s | %s" % (status, payload[:200]), "model": wans[:200]})
+    if wans is not None and mode == "gmp":
+        stats["corr"]["gmp"] = stats["corr"].get("gmp", 0) + 1
+        k = "f%sq%s" % (wans[6:7], wans[10:11]); stats["gmp_classes"][k] = stats["gmp_classes"].get(k, 0) + 1
+        if not (status == "OK" and payload == wans):
+            stats["corr_mismatch"].append({"mode": mode, "hex": b.hex(), "impl": "%s | %s" % (status, payload[:200]), "model": wans[:200]})
     # correspondence with the model (only when the implementation answered)
     if model_ans is not None and mode in ("skipc", "tokmem", "tokfile", "optline", "fmt"):
         stats["corr"][mode] = stats["corr"].get(mode, 0) + 1
@@ -479,10 +736,23 @@ def evaluate(ctx, case, res, model_ans, stats):
     return v
 
 
+def load_fragment(ctx):
+    """known/C09.json is this check's own fragment of known_findings.json: entries that have not been merged into
+    the shared file yet (lib/mkmanifest.py does that) are honoured all the same"""
+    try: frag = json.load(open(os.path.join(vf.VERIF, "known", "C09.json"))).get("findings", [])
+    except (OSError, ValueError): return
+    have = {k.get("signature") for k in ctx.known}
+    for f in frag:
+        if f.get("property") == "C09" and f.get("status", "open") == "open" and f.get("signature") not in have:
+            ctx.known.append(f)
+
+
 def run(ctx):
+    load_fragment(ctx)
     ctx.prove()
     h = ctx.compile_harness(["c09_parse.c"], "c09_parse", mode="san")
-    stats = {"outcome": {}, "corr": {}, "witness": {}, "corr_mismatch": [], "msg_with_token": 0, "old": OLD, "cur": None}
+    stats = {"outcome": {}, "corr": {}, "witness": {}, "corr_mismatch": [], "msg_with_token": 0, "old": OLD, "cur": None,
+             "whole_outcome": {}, "whole_by_origin": {}, "whole_skipped": 0, "wild_index_silent": 0, "gmp_classes": {}}
 
     if ctx.replay:
         obj = json.load(open(ctx.replay))
@@ -498,6 +768,8 @@ def run(ctx):
     ctx.log("%d cases" % len(cases))
     results = run_harness(ctx, h, cases)
     model = model_lines(ctx, cases)
+    chk = cheb_index_checked(ctx.snap("san"))
+    whole_model(ctx, cases, chk, stats)
     ctx.log("harness and model done")
 
     sig_hist, mode_hist, origin_hist, size_hist = {}, {}, {}, {}
@@ -531,7 +803,7 @@ def run(ctx):
     def search():
         # the refuted statements carry their witnesses; replay them on the real code
         w = [("skipc", b"!x", "w"), ("optline", b";", "w"), ("fmt", b"%n", "w"),
-             ("tokfile", b"x" * 119, "w")]
+             ("tokfile", b"x" * 119, "w")] + [(m, b, "w") for m, b, o in WHOLE_WITNESSES]
         r = run_harness(ctx, h, w, tag="w")
         found = False
         for c, rr in zip(w, r):
@@ -549,6 +821,12 @@ def run(ctx):
         "outcomes": stats["outcome"], "messages_carrying_input_text": stats["msg_with_token"],
         "violation_signatures": sig_hist,
         "model_correspondence_cases": stats["corr"],
+        "whole_file_model_outcomes": stats["whole_outcome"],
+        "whole_file_model_cases_by_origin": stats["whole_by_origin"],
+        "whole_file_model_skipped_long_lines": stats["whole_skipped"],
+        "whole_file_chebyshev_index_check_present_in_source": chk,
+        "wild_index_predicted_but_silent": stats["wild_index_silent"],
+        "gmp_token_classes": stats["gmp_classes"],
         "model_witnesses_reproduced_on_implementation": stats["witness"],
         "correspondence_mismatches": len(stats["corr_mismatch"]),
         "regression_inputs_clean": stats.get("regression_clean", 0),
@@ -559,8 +837,10 @@ def run(ctx):
             "harness/c09_parse.c; gcc ASan+UBSan as the observer of memory safety of the real parser (observed, not proved)",
             "modelled, not verified: glibc getline growth (single stdio chunk), libstdc++ istream::getline, x86-64 va_list "
             "re-use in mps_error, printf conversions other than %s %d %ld %% are 'wild'",
-            "not modelled: the coefficient readers (monomial/secular/Chebyshev), GMP string conversion, the yacc inline "
-            "grammar, the stale last_token after a failed readline: these are covered by outcome class + sanitizers only",
+            "hand-written ocaml/pwhole_driver.ml (hex/decimal I/O only); GMP 6.2.1 acceptance grammar and glibc atoi / sscanf %d %ld "
+            "as transcribed in coq/ParseTotal/Gmp621.v (tied token by token, mode gmp)",
+            "not modelled: what GMP, the allocator and the double/DPE conversions do with an accepted token, the history ring of "
+            "the input buffer, the yacc inline grammar: these are covered by outcome class + sanitizers only",
         ],
     }
     return ctx.finish("proof", cov, [
